@@ -51,6 +51,7 @@ pub fn gen_mgr(rng: &mut Rng) -> MgrPlan {
             flags_mode: rng.below(5) as u32,
             dup_chunks: 0,
             overlap_first: None,
+            zero_byte_only: false,
         };
         let mut v = Vec::new();
         for i in 0..s.n_xorbs {
